@@ -129,3 +129,46 @@ Theorem cyclic_import_detected_bounded : forall g l, In g graphs3 -> In l (0 :: 
   check_single (defs_of g) l = true.
 Proof. exact cyclic_import_detected_bounded_proof. Qed.
 Print Assumptions cyclic_import_detected_bounded.
+
+(** round 2: the syntactic-closure layer (user code closed by exported sc/er macros of other libraries) *)
+From ChibiV Require Import C14.Env C14.SynClo C14.SynCloProofs.
+Theorem closed_lookup_bound : forall c U free k cell,
+  ~ In k free -> fv_memq k (c_fv c) = None -> env_cell U k = Some cell ->
+  ctx_cell (enter_synclo c U free) k = Some cell.
+Proof. exact closed_lookup_bound_proof. Qed.
+Print Assumptions closed_lookup_bound.
+
+Theorem wrapped_lookup_bound : forall ws c k cell,
+  Forall (fun w => ~ In k (wfree w)) ws -> sees c k cell -> ctx_cell (wrap_ctx ws c) k = Some cell.
+Proof. exact wrapped_lookup_bound_proof. Qed.
+Print Assumptions wrapped_lookup_bound.
+
+Theorem import_visible_in_closed_code : forall to from ids immutp n m cell ws,
+  to <> nil -> In (n, m) ids -> (forall m', In (n, m') ids -> m' = m) -> env_cell from m = Some cell ->
+  Forall (fun w => ~ In n (wfree w)) ws ->
+  ctx_cell (wrap_ctx ws (top_ctx (env_import to from (Some ids) immutp))) n = Some cell /\
+  ctx_cell (top_ctx (env_import to from (Some ids) immutp)) n = Some cell.
+Proof. exact import_visible_in_closed_code_proof. Qed.
+Print Assumptions import_visible_in_closed_code.
+
+Theorem free_name_redirected : forall c U free k,
+  In k free -> ctx_cell (enter_synclo c U free) k = env_cell (c_env c) k.
+Proof. exact free_name_redirected_proof. Qed.
+Print Assumptions free_name_redirected.
+
+Theorem sc_no_free_names_exact : forall M locals U k,
+  ctx_cell (wrap1 (WSc M nil locals) (top_ctx U)) k = env_cell U k.
+Proof. exact sc_no_free_names_exact_proof. Qed.
+Print Assumptions sc_no_free_names_exact.
+
+Theorem sc_free_names_leak_char : forall M a free locals U k,
+  ~ In k (a :: free) -> env_cell U k = None ->
+  ctx_cell (wrap1 (WSc M (a :: free) locals) (top_ctx U)) k =
+  match assoc_loc k locals with Some c => Some c | None => env_cell M k end.
+Proof. exact sc_free_names_leak_char_proof. Qed.
+Print Assumptions sc_free_names_leak_char.
+
+Theorem closed_code_sees_only_its_environment_refuted :
+  ~ (forall c U free k, ~ In k free -> fv_memq k (c_fv c) = None -> ctx_cell (enter_synclo c U free) k = env_cell U k).
+Proof. exact closed_code_sees_only_its_environment_refuted_proof. Qed.
+Print Assumptions closed_code_sees_only_its_environment_refuted.
